@@ -316,17 +316,18 @@ def export_save(save: data.Save) -> vsp.Save:
         else:
             raise ValueError
         return vsp.Save(mode=mode)
-    if isinstance(save.targ, Signal):
-        signal = save.targ.name
-    elif isinstance(save.targ, List[Signal]):
-        signal = ",".join([s.name for s in save.targ])
-    elif isinstance(save.targ, str):
-        signal = save.targ
-    elif isinstance(save.targ, List[str]):
-        signal = ",".join([s for s in save.targ])
-    else:
-        raise TypeError
-    return vsp.Save(signal=signal)
+    # Everything else is a `Signal`, a signal-name, or a list of either.
+    # (Note `isinstance` does not work with subscripted types such as `List[Signal]`.)
+    targs = save.targ if isinstance(save.targ, (list, tuple)) else [save.targ]
+    names = []
+    for targ in targs:
+        if isinstance(targ, Signal):
+            names.append(targ.name)
+        elif isinstance(targ, str):
+            names.append(targ)
+        else:
+            raise TypeError(f"Invalid `Save` target {targ}")
+    return vsp.Save(signal=",".join(names))
 
 
 def export_meas(meas: data.Meas) -> vsp.Meas:
